@@ -764,3 +764,27 @@ Theorem C17_restriction_closed_satisfiable :
     pi id <> id.
 Proof. exact V.Proofs.HasTypeFuel.restriction_closed_satisfiable. Qed.
 Print Assumptions C17_restriction_closed_satisfiable.
+
+(** the run-time checker of the de-duplication clause, evaluated on the MODEL's own outputs, answers
+    [true]: for a pair (case on [r], case on [renumber pi r]) whose recorded de-duplication
+    outcomes are the model's ([corr_dedup_obs]) and whose recorded permutation is the inverse of
+    [pi] ("entry [j] of b is entry [inv_on pi n j] of a"), under the hypothesis of
+    [C17_dedup_partition_invariant_partial].  So what [prop_dedup_groups] demands of the
+    implementation is a consequence of that theorem plus the behavioural correspondence. *)
+From V Require Corr.RunTG Corr.CheckTG Proofs.DedupChecker.
+
+Theorem C17_dedup_checker_on_model :
+  forall pi r,
+    renumbering (N.of_nat (List.length r)) pi ->
+    V.Model.DedupPerm.teq_equiv_on_familiesb r = true ->
+    forall ca cb : V.Corr.RunTG.tg_case,
+      V.Corr.RunTG.tg_reg ca = r -> V.Corr.RunTG.tg_reg cb = renumber pi r ->
+      V.Corr.RunTG.tg_dedup ca =
+        V.Corr.RunTG.obs_of (rmap V.Corr.RunTG.reg_paths (ensure_unique r)) ->
+      V.Corr.RunTG.tg_dedup cb =
+        V.Corr.RunTG.obs_of (rmap V.Corr.RunTG.reg_paths (ensure_unique (renumber pi r))) ->
+      V.Corr.CheckTG.prop_dedup_groups_raw
+        (V.Corr.RunTG.mk_pair "renumbered" ca cb
+           (map (inv_on pi (List.length r)) (seqN (List.length r)))) = true.
+Proof. exact V.Proofs.DedupChecker.dedup_checker_on_model. Qed.
+Print Assumptions C17_dedup_checker_on_model.
